@@ -19,6 +19,7 @@ type Slot struct {
 	parent *Slot
 	pidx   int
 	e      *Engine
+	leaf   bool  // struct type stored as one value (reflect.Value)
 	ext    Value // model payload (math/big.Int -> *Term of sort Int, time.Time -> *timeModel)
 }
 
@@ -149,6 +150,12 @@ func isFloat(t types.Type) bool {
 
 func (e *Engine) newSlot(t types.Type) *Slot {
 	s := &Slot{typ: t, init: e.inInit, e: e}
+	if isReflValueType(t) {
+		// a reflect.Value is one engine object (reflect-lite), not a struct of runtime internals
+		s.leaf = true
+		s.val = e.zero(t)
+		return s
+	}
 	switch u := t.Underlying().(type) {
 	case *types.Struct:
 		s.kids = make([]*Slot, u.NumFields())
@@ -181,6 +188,9 @@ func (s *Slot) kid(i int) *Slot {
 }
 
 func (e *Engine) load(s *Slot) Value {
+	if s.leaf {
+		return s.val
+	}
 	switch u := s.typ.Underlying().(type) {
 	case *types.Struct:
 		f := make([]Value, len(s.kids))
@@ -221,6 +231,13 @@ type undoRec struct {
 }
 
 func (e *Engine) store(s *Slot, v Value) {
+	if s.leaf {
+		if s.init && !e.inInit {
+			e.undo = append(e.undo, undoRec{s, s.val, s.ext})
+		}
+		s.val = v
+		return
+	}
 	switch x := v.(type) {
 	case *StructV:
 		for i, k := range s.kids {
@@ -248,4 +265,9 @@ func (e *Engine) setExt(s *Slot, v Value) {
 		e.undo = append(e.undo, undoRec{s, s.val, s.ext})
 	}
 	s.ext = v
+}
+
+func isReflValueType(t types.Type) bool {
+	n, ok := t.(*types.Named)
+	return ok && n.Obj().Pkg() != nil && n.Obj().Pkg().Path() == "reflect" && n.Obj().Name() == "Value"
 }
